@@ -105,7 +105,11 @@ func (r *resendContext) endRetransmitting() {
 }
 
 func defaultResendMessageTransform(msg []byte) []byte {
-	return append(defaultResentPrefix, msg...)
+	// always a buffer of its own (the caller erases it after use): appending an empty text to the
+	// package-level prefix would hand out the prefix itself
+	ret := make([]byte, 0, len(defaultResentPrefix)+len(msg))
+	ret = append(ret, defaultResentPrefix...)
+	return append(ret, msg...)
 }
 
 func (c *Conversation) resendMessageTransformer() func([]byte) []byte {
@@ -163,8 +167,8 @@ func (c *Conversation) retransmit() ([]messageWithHeader, error) {
 			msg = c.resendMessageTransformer()(msg)
 		}
 		dataMsg, _, err := c.genDataMsg(msg)
-		if resending {
-			wipeBytes(msg) // the marked copy made for this transmission
+		if resending && c.resend.messageTransform == nil {
+			wipeBytes(msg) // the marked copy made for this transmission (a custom transform owns what it returns)
 		}
 		if err != nil {
 			return nil, err
